@@ -389,10 +389,15 @@ func corrC10(c *corrCtx) {
 			x := xs[r.intn(len(xs))]
 			for _, n := range []int{1, 3, g.h + 5} {
 				c10Case(c, r, "inplace/"+dk, nil, image.Rect(0, 0, g.w, g.h), dk, image.Pt(r.intn(9)-4, r.intn(9)-4), x, n, true)
+				c10Chain = true
+				c10Case(c, r, "inplace-generations/"+dk, nil, image.Rect(0, 0, g.w+3, g.h), dk, image.Pt(r.intn(9)-4, r.intn(9)-4), x, n, true)
+				c10Chain = false
 			}
 		}
 	}
 }
+
+var c10Chain bool
 
 func c10Case(c *corrCtx, r *rng, class string, src image.Image, sb image.Rectangle, dk string, dOrigin image.Point, x xform, n int, inPlace bool) {
 	c10CaseX(c, r, class, src, sb, dk, dOrigin, x, n, inPlace, r.intn(2) == 0)
@@ -405,6 +410,15 @@ func c10CaseX(c *corrCtx, r *rng, class string, src image.Image, sb image.Rectan
 		d = newDestExact(r, dk, dOrigin, sb.Size())
 		src = d.img
 		sb = d.img.Bounds()
+		if c10Chain {
+			// "generations": every pixel holds the transform of its left neighbour, so that a value
+			// already written to the left equals the value still to be read on the right
+			for y := sb.Min.Y; y < sb.Max.Y; y++ {
+				for xx := sb.Min.X + 1; xx < sb.Max.X; xx++ {
+					d.img.Set(xx, y, x.f(d.img.At(xx-1, y)))
+				}
+			}
+		}
 	}
 	table := srcTable(src)
 	before := append([]uint8{}, d.parent...)
@@ -540,6 +554,108 @@ func corrC15(c *corrCtx) {
 					}
 					if !same && stride == sb.Dx()*map[string]int{"nrgba": 4, "rgba": 4, "rgba64": 8}[target] {
 						c.emit("conv/"+sk+"->"+target, fmt.Sprintf("conv %s %d %d %s", target, sb.Dx(), sb.Dy(), hexs(table)), fmt.Sprintf("%d:%016x", len(pix), fnvBytes(pix)))
+					}
+				}
+			}
+		}
+	}
+	// geometry x parallelism sweep on whole (contiguous) images of the packed types: every split of the
+	// pixels among the workers must cover the last pixel of the last row
+	ws := []int{1, 2, 3, 7, 8, 11, 15, 16, 17, 25, 31, 32, 33, 38, 47, 64, 65, 257}
+	hs := []int{1, 2, 3, 5}
+	if c.thorough() {
+		ws = nil
+		for w := 1; w <= 80; w++ {
+			ws = append(ws, w)
+		}
+		ws = append(ws, 255, 256, 257, 1023)
+		hs = []int{1, 2, 3, 4, 5, 7, 16}
+	}
+	for _, sk := range []string{"rgba", "rgba64", "nrgba", "nrgba64", "gray"} {
+		for _, w := range ws {
+			for _, h := range hs {
+				rect := image.Rect(0, 0, w, h)
+				if (w+h)%2 == 0 {
+					rect = rect.Add(image.Pt(3, -2))
+				}
+				var src image.Image
+				fillr := func(p []uint8) {
+					for i := range p {
+						p[i] = uint8(r.next())
+					}
+				}
+				switch sk {
+				case "rgba":
+					m := image.NewRGBA(rect)
+					fillr(m.Pix)
+					for i := 0; i+3 < len(m.Pix); i += 4 { // valid premultiplied content
+						a := m.Pix[i+3]
+						for k := 0; k < 3; k++ {
+							if m.Pix[i+k] > a {
+								m.Pix[i+k] = a
+							}
+						}
+					}
+					src = m
+				case "rgba64":
+					m := image.NewRGBA64(rect)
+					fillr(m.Pix)
+					src = m
+				case "nrgba":
+					m := image.NewNRGBA(rect)
+					fillr(m.Pix)
+					src = m
+				case "nrgba64":
+					m := image.NewNRGBA64(rect)
+					fillr(m.Pix)
+					src = m
+				default:
+					m := image.NewGray(rect)
+					fillr(m.Pix)
+					src = m
+				}
+				for _, target := range []string{"nrgba", "rgba", "rgba64"} {
+					if target == sk {
+						continue
+					}
+					var ref draw.Image
+					switch target {
+					case "nrgba":
+						ref = image.NewNRGBA(rect)
+					case "rgba":
+						ref = image.NewRGBA(rect)
+					default:
+						ref = image.NewRGBA64(rect)
+					}
+					draw.Draw(ref, rect, src, rect.Min, draw.Src)
+					for _, n := range []int{2, 3, 5, 7, 16, w*h + 1} {
+						var out image.Image
+						p := safeTransform(func() {
+							switch target {
+							case "nrgba":
+								out = prism.ConvertImageToNRGBA(src, n)
+							case "rgba":
+								out = prism.ConvertImageToRGBA(src, n)
+							default:
+								out = prism.ConvertImageToRGBA64(src, n)
+							}
+						})
+						c.stats["conv-sweep/"+sk+"->"+target]++
+						if p != nil {
+							c.direct(fmt.Sprintf("C15/sweep-panic/%s/%s/%dx%d/n%d", sk, target, w, h, n), "conversion helper panics", map[string]interface{}{"panic": fmt.Sprint(p)})
+							continue
+						}
+						done := false
+						for y := rect.Max.Y - 1; y >= rect.Min.Y && !done; y-- {
+							for x := rect.Max.X - 1; x >= rect.Min.X; x-- {
+								if out.At(x, y) != ref.At(x, y) {
+									c.direct(fmt.Sprintf("C15/sweep/%s/%s/%dx%d/n%d", sk, target, w, h, n), "helper's pixel differs from draw.Draw with the Src operator (whole image, geometry x parallelism sweep)",
+										map[string]interface{}{"src": sk, "target": target, "size": fmt.Sprintf("%dx%d", w, h), "parallelism": n, "at": fmt.Sprint(x, y), "got": fmt.Sprint(out.At(x, y)), "want": fmt.Sprint(ref.At(x, y))})
+									done = true
+									break
+								}
+							}
+						}
 					}
 				}
 			}
